@@ -2,7 +2,7 @@
 From Coq Require Import ZArith NArith List Bool.
 From Exactly Require Import Lib.Harness Model.Interval.
 Import ListNotations.
-Open Scope Z_scope.
+Local Open Scope Z_scope.
 
 Definition itv_eqb (a b : itv) : bool :=
   match a, b with
